@@ -356,4 +356,62 @@ func TestVerif_C19(t *testing.T) {
 			c.Nontrivial(h.Sum())
 		})
 	}
+
+	// Part: several rings of the same capacity and resolution alive at once (the processor owns
+	// three: pre-trigger frames, floored frames, diff frames; an old and a new processor overlap
+	// at a reconnect): each ring returns its own history, whatever the others do.
+	ntw := c.N(200, 20000)
+	for s := int64(0); s < ntw; s++ {
+		myIdx := idx
+		idx++
+		if !c.Mine(myIdx) {
+			continue
+		}
+		rng := c.RNG(myIdx)
+		N := rng.Range(1, 12)
+		k := rng.Range(2, 4)
+		var trace []string
+		c.Case(myIdx, func() interface{} {
+			t := trace
+			if len(t) > 200 {
+				t = t[len(t)-200:]
+			}
+			return map[string]interface{}{"capacity": N, "rings_alive_together": k, "ops_tail": t}
+		}, func() {
+			rings := make([]*ringPair, k)
+			for i := range rings {
+				rings[i] = newRingPair(N)
+				rings[i].nextID = 1000*(i+1) + 1
+				rings[i].fl.Reset()
+				rings[i].ref.Reset()
+				rings[i].stamp()
+			}
+			for i := 0; i < 600; i++ {
+				w := rng.Intn(k)
+				op := opMove
+				if r := rng.Intn(100); r < 10 {
+					op = opMark
+				} else if r < 12 {
+					op = opReset
+				}
+				if rng.Chance(1) {
+					// a ring is replaced by a new one of the same shape (reconnect)
+					rings[w] = newRingPair(N)
+					rings[w].nextID = 1000*(w+1) + 500 + i
+					trace = append(trace, fmt.Sprintf("%d:new", w))
+				} else {
+					rings[w].apply(op)
+					trace = append(trace, fmt.Sprintf("%d:%s", w, ringOpNames[op]))
+				}
+				for j, p := range rings {
+					if kind, detail := p.check(); kind != "" {
+						c.Violation("ring-"+kind, fmt.Sprintf("capacity %d; %d rings alive", N, k), fmt.Sprintf("ring %d after an operation on ring %d: %s", j, w, detail))
+						return
+					}
+				}
+			}
+			c.Count("twin_ring_runs", 1)
+			c.Nontrivial(vNewHash().U64(uint64(myIdx)).Int(N).Int(k).Sum())
+		})
+	}
 }
